@@ -110,6 +110,17 @@ def native_checks(run, n_cases):
                 fails.append(f"{which} {names}: unknown keyword accepted")
             except TypeError:
                 pass
+            # an unknown name TOGETHER with known ones (before / after / between them) is refused just the same
+            for pos in range(min(k, 2) + 1):
+                items = [(nm, 2.0) for nm in names[:2]]
+                items.insert(pos, ("not_a_name", 1.0))
+                if len(items) < 2:
+                    continue
+                try:
+                    cls(**dict(items))
+                    fails.append(f"{which} {names}: the unknown name 'not_a_name' was accepted next to known names ({[a for a, _ in items]})")
+                except TypeError:
+                    pass
             try:
                 cls.from_data(np.zeros((k + 1, 1)))
                 fails.append(f"{which} {names}: wrong shape accepted by from_data")
@@ -277,7 +288,10 @@ def check(run):
     renaming_lemma(run)
     cxx_fragments(run)
     refuted = bool(run.findings)
-    if run.tier == "thorough" or refuted or run.undecided or any(r.status != "ok" for r in run.reports):
+    escalate = run.tier == "thorough" or refuted or run.undecided or any(r.status != "ok" for r in run.reports)
+    if not escalate:
+        native_checks(run, 6)  # a reduced construction sweep always runs
+    if escalate:
         before = len(run.findings)
         native_checks(run, 60 if run.tier == "thorough" else 20)
         if len(run.findings) > before:
